@@ -27,6 +27,13 @@ pub fn batches(variant: usize) -> Vec<Batch> {
         // A / B / A: a scene, then a batch of foreign scenes only, then the first scene again (pipelined
         // use: the first batch may still be voting when the third one is prepared)
         4 => vec![vec![(0, vec![a.clone()]), (1, vec![b.clone()]), (2, vec![a.clone()])], vec![(5, vec![b.clone()])], vec![(0, vec![p1().feat(&fa1(), 0.8)])]],
+        // own-area shares differ between the scenes of one batch: scene 0 holds two detections that cover each
+        // other (shares about 0.2), scene 1 two separated ones (shares 1); used with own-area thresholds switched on
+        5 => vec![
+            vec![(0, vec![a.clone(), p().shift(2.0, 0.0).feat(&fb(), 0.9)]), (1, vec![a.clone(), b.clone()])],
+            vec![(0, vec![p().shift(0.5, 0.0).feat(&fa1(), 0.9), p().shift(2.5, 0.0).feat(&fb(), 0.85)]), (1, vec![p1().feat(&fa1(), 0.9), b.shift(1.0, 0.0)])],
+            vec![(1, vec![p().shift(1.0, 0.5).feat(&fa(), 0.9), b.shift(2.0, 0.0)]), (0, vec![p().shift(1.0, 0.0).feat(&fa(), 0.9), p().shift(3.0, 0.0).feat(&fb(), 0.9)])],
+        ],
         // three scenes
         _ => vec![vec![(0, vec![a.clone()]), (1, vec![a.clone()]), (2, vec![b.clone()])], vec![(0, vec![p1()]), (2, vec![b.shift(1.0, 1.0)]), (1, vec![p1().shift(0.5, 0.0)])]],
     }
@@ -293,7 +300,7 @@ pub fn replay_batch(file: &serde_json::Value, prop: &str, judge: &dyn Fn(&RunOut
 
 pub fn run_check(tier: Tier) -> Report {
     let rep = Report::new("C06", tier);
-    rep.set_rule("BatchSort and BatchVisualSort x (distance shards, voting shards) in {(1,1),(1,2),(2,2)} (thorough: (1,3)) x batch sequences (2-3 batches over 2-3 scenes with 1-2 detections per scene, a scene absent from one batch) x consumer discipline {same thread retrieves before the next submission; a second thread retrieves while the caller submits at once}, then drop; plus a fine tier (every synchronisation operation a decision point, 2 voting threads; two batches of two scenes retrieved before the next submission, deviation bound iterated to 2 quick / 4 thorough; three pipelined batches retrieved by consumer threads, bound 1 quick / 3 thorough): every interleaving of the predict loop, store workers, voting threads and consumer within the bound (window = whole run; bound = preemptions for the 1x1 / retrieve-then-submit configuration, otherwise departures from the deterministic default schedule i.e. delay bounding; bounds iterated 0,1,2,.. and the largest completed one reported per scenario); oracle: one result per submitted scene, one record per detection in order, per scene equal to the simple tracker up to an id bijection, no deadlock / step-cap. A third discipline that violates the proviso (submit a two-scene batch, then the next, before retrieving) must deadlock: built-in detection demo. states = executions.");
+    rep.set_rule("BatchSort and BatchVisualSort x (distance shards, voting shards) in {(1,1),(1,2),(2,2)} (thorough: (1,3)) x batch sequences (2-3 batches over 2-3 scenes with 1-2 detections per scene, a scene absent from one batch; for BatchVisualSort also own-area thresholds with scenes of different own-area shares in one batch) x consumer discipline {same thread retrieves before the next submission; a second thread retrieves while the caller submits at once}, then drop; plus a fine tier (every synchronisation operation a decision point, 2 voting threads; two batches of two scenes retrieved before the next submission, deviation bound iterated to 2 quick / 4 thorough; three pipelined batches retrieved by consumer threads, bound 1 quick / 3 thorough): every interleaving of the predict loop, store workers, voting threads and consumer within the bound (window = whole run; bound = preemptions for the 1x1 / retrieve-then-submit configuration, otherwise departures from the deterministic default schedule i.e. delay bounding; bounds iterated 0,1,2,.. and the largest completed one reported per scenario); oracle: one result per submitted scene, one record per detection in order, per scene equal to the simple tracker up to an id bijection, no deadlock / step-cap. A third discipline that violates the proviso (submit a two-scene batch, then the next, before retrieving) must deadlock: built-in detection demo. states = executions.");
     rep.assume("macro-step granularity (named points: worker dequeues a command, distances queued, scene dispatched, vote begin / before each store write / before the result is sent); preemptions inside lock-protected sections are not explored");
     let mut scen = BTreeMap::new();
     let mut total = 0u64;
@@ -318,6 +325,9 @@ pub fn run_check(tier: Tier) -> Report {
             scenarios.push((kind, ds, vs, 4, 1, Pos::Iou(0.3)));
         }
     }
+    // own-area thresholds on, scenes with different own-area shares in one batch (BatchVisualSort only)
+    scenarios.push((Kind::BatchVisualSort, 1, 1, 5, 0, Pos::Iou(0.3)));
+    scenarios.push((Kind::BatchVisualSort, 1, 2, 5, 1, Pos::Iou(0.3)));
     // fine tier: every synchronisation operation is a decision point (the macro-step tiers below
     // cannot see a check-then-act race between two lock sections that has no named point in it);
     // smallest harness: two batches of two scenes, two voting threads, deviation bound iterated
@@ -370,6 +380,10 @@ pub fn run_check(tier: Tier) -> Report {
         cfg.voting_shards = vs;
         cfg.pos = pos;
         cfg.max_idle = 2;
+        if variant == 5 {
+            cfg.vis.own_use = 0.5;
+            cfg.vis.own_collect = 0.3;
+        }
         let bs = batches(variant);
         let reference = simple_reference(&cfg, &bs);
         // equal share of what is left of the wall budget; bounds are iterated 0, 1, 2, ... inside it
